@@ -74,3 +74,18 @@ package core_domain
 //@ requires m != nil
 //@ ensures result <==> AnyTestAnn((*m).Annotations, len((*m).Annotations))
 //@ loop 1 invariant isTest <==> AnyTestAnn((*m).Annotations, #i)
+
+// C01: the functions of a class are exactly the entries of its method table, each once (order unspecified)
+//@ method CodeDataStruct.SetMethodFromMap
+//@ requires d != nil
+//@ modifies *d
+//@ ensures len((*d).Functions) == len(methodMap)
+//@ ensures forall k string :: {k in methodMap} (k in methodMap) ==> (exists i int :: 0 <= i && i < len((*d).Functions) && (*d).Functions[i] == methodMap[k])
+//@ ensures forall i int :: {(*d).Functions[i]} 0 <= i && i < len((*d).Functions) ==> (exists k string :: (k in methodMap) && (*d).Functions[i] == methodMap[k])
+//@ ensures (*d).NodeName == old((*d).NodeName) && (*d).Package == old((*d).Package) && (*d).FilePath == old((*d).FilePath) && (*d).Type == old((*d).Type) && (*d).Extend == old((*d).Extend)
+//@ ensures (*d).Annotations == old((*d).Annotations) && (*d).Fields == old((*d).Fields) && (*d).Imports == old((*d).Imports)
+//@ loop 1 invariant len(methodsArray) == NVisited()
+//@ loop 1 invariant forall k string :: {Visited(k)} Visited(k) ==> (exists i int :: 0 <= i && i < len(methodsArray) && methodsArray[i] == methodMap[k])
+//@ loop 1 invariant forall i int :: {methodsArray[i]} 0 <= i && i < len(methodsArray) ==> (exists k string :: (k in methodMap) && methodsArray[i] == methodMap[k])
+//@ loop 1 assert len(methodsArray) == len(methodsArray@pre) + 1 && methodsArray[len(methodsArray) - 1] == value
+//@ loop 1 assert forall r int :: {methodsArray[r]} {methodsArray@pre[r]} 0 <= r && r < len(methodsArray@pre) ==> methodsArray[r] == methodsArray@pre[r]
